@@ -5,87 +5,86 @@ piece, with the reference model of the statement:
    maximise  sum_i ( len_i * x[i,0]  -  sum_{k>=1} k * len_i * x[i,k] )
    s.t.      sum_k x[i,k] = 1 for every region i;   x[i,k] + x[j,k] <= 1 for every crossing pair, every level k
    x binary, levels 0..B-1 with B >= max degree + 1.
+Pieces are *evaluated* (coefficient as a function of the level, bound as a function of the maximum degree, roles of
+the name fields) rather than matched as text, so equivalent ways of writing the model give the same facts.
 """
 from __future__ import annotations
 
 import ast
-from typing import Any, Dict, List, Optional, Tuple
+import copy
+from typing import Any, Callable, Dict, List, Optional, Tuple
 
 from checks import c01
 from sa import astq
 from sa.consteval import Folder
+from sa.defuse import Inliner
 from sa.flow import FlowMap, facts
 from sa.model import AnalysisError, FuncInfo, norm
-from sa.sym import Aff, SymEnv, atom_of, show_atom
+from sa.sym import SymEnv, atom_of
 
 MOD = "common"
 K = c01.K
 
-
-def product_form(env: SymEnv, e: ast.expr) -> Tuple[int, Tuple[Any, ...]]:
-    """sign/coefficient and multiset of atoms of a product expression."""
-    if isinstance(e, ast.BinOp) and isinstance(e.op, ast.Mult):
-        c1, f1 = product_form(env, e.left)
-        c2, f2 = product_form(env, e.right)
-        return c1 * c2, tuple(sorted(f1 + f2, key=repr))
-    if isinstance(e, ast.UnaryOp) and isinstance(e.op, ast.USub):
-        c, f = product_form(env, e.operand)
-        return -c, f
-    if isinstance(e, ast.Constant) and isinstance(e.value, (int, float)) and not isinstance(e.value, bool):
-        return e.value, ()
-    v = env.ev(e)
-    if isinstance(v, Aff) and v.is_const:
-        return v.const, ()
-    return 1, (atom_of(v),)
+ROBUST = {
+    "milp-bound", "milp-sense", "milp-binary", "milp-objective-coeff", "milp-one-level", "milp-adjacency", "milp-readback",
+    "milp-readback-optimal", "milp-name-format", "milp-empty-graph", "milp-readback-init",
+}
 
 
-def run(chk) -> None:
-    chk.explanation = (
-        "Symbolic reading of the PuLP model in convert_to_dot_bracket (index sets of the variable loops, category and bounds, sense, "
-        "each objective term as sign x factors per case of the level branch, each constraint family as (index set, linear form, "
-        "relation, rhs), read-back name format) compared with the reference model of the property statement; conflict graph and "
-        "fill are the verified ones of C01. Optimality of the returned assignment then rests only on the solver."
-    )
-    chk.trusted = ["CPython ast", "PuLP semantics of LpProblem/LpVariable/lpSum/+=", "the MILP solver returns a true optimum when status is Optimal", "Grundy argument: an optimal assignment never needs more than max degree + 1 levels"]
-    chk.assumptions = ["valid BPSEQ", "solver integrality: varValue of a selected binary is exactly 1"]
+def zeros_of_regions(env: SymEnv, x: ast.AST, R: Any) -> bool:
+    if isinstance(x, ast.ListComp) and isinstance(x.elt, ast.Constant) and x.elt.value == 0 and len(x.generators) == 1 and not x.generators[0].ifs:
+        return atom_of(env.ev(x.generators[0].iter)) == ("call", "range", ("len", R))
+    m = astq.match(x, "[0] * N_") or astq.match(x, "N_ * [0]")
+    return bool(m) and atom_of(env.ev(m["N_"])) == ("len", R)
+
+
+def local_helpers(repo, fi: FuncInfo) -> Dict[str, Callable]:
+    """Nested single-return functions of `fi` as callables on folded values."""
+    out: Dict[str, Callable] = {}
+    for d in ast.walk(fi.node):
+        if d is fi.node or not isinstance(d, ast.FunctionDef):
+            continue
+        body = [s for s in d.body if not (isinstance(s, ast.Expr) and isinstance(s.value, ast.Constant))]
+        if len(body) == 1 and isinstance(body[0], ast.Return) and body[0].value is not None and not d.args.kwonlyargs and not d.args.vararg:
+            params = [a.arg for a in d.args.args]
+            ret = body[0].value
+
+            def call(*vals, _p=params, _r=ret):
+                if len(vals) != len(_p):
+                    raise AnalysisError("helper arity")
+                return Folder(repo, MOD, dict(zip(_p, vals))).fold(_r)
+
+            out[d.name] = call
+    return out
+
+
+def check_bound(chk, fi: FuncInfo, inl: Inliner) -> None:
     repo = chk.repo
-    fi = repo.func(MOD, "BpSeq.convert_to_dot_bracket")
-    chk.note_function(fi)
-    env, R = c01.regions_term(chk, fi)
-    fm = FlowMap(fi.node)
-    c01.check_conflict_graph(chk, fi)
-
-    # ---- early exit for an empty graph --------------------------------------------------
-    exits = [s for s in fi.node.body if isinstance(s, ast.If) and astq.match(s.test, "not graph") is not None]
-    ok = False
-    if exits:
-        r = exits[0].body[-1]
-        if isinstance(r, ast.Return) and r.value is not None:
-            m = astq.match(r.value, "self.__make_dot_bracket(regions, X_)")
-            if m:
-                x = m["X_"]
-                ok = (
-                    isinstance(x, ast.ListComp) and isinstance(x.elt, ast.Constant) and x.elt.value == 0 and atom_of(env.ev(x.generators[0].iter)) == ("call", "range", ("len", R))
-                ) or astq.match(x, "[0] * len(regions)") is not None
-    chk.expect(ok, "milp-empty-graph", fi.where, "without crossings every region gets level 0", "empty-graph exit does not assign level 0 to every region", K(fi, "empty-exit"))
-
-    # ---- level bound ---------------------------------------------------------------------
-    b = astq.single_def(fi.node, "max_order")
-    if b is None:
-        raise AnalysisError("max_order not bound once")
+    binds = [(st, v) for st, v in astq.assignments(fi.node, "max_order") if v is not None]
+    if len(binds) != 1:
+        chk.error("milp-bound", fi.where, "`max_order` is not bound exactly once")
+        return
+    st, b = binds[0]
+    b = inl.inline(b, st, stop=("graph", "regions"))
     why = norm(b)
 
     class _Sub(ast.NodeTransformer):
         def visit_Call(self, n):
-            for pat in ("max(map(len, graph.values()))", "max((len(V_) for V_ in graph.values()))", "max([len(V_) for V_ in graph.values()])", "max((len(graph[V_]) for V_ in graph))", "max([len(graph[V_]) for V_ in graph])"):
+            for pat in (
+                "max(map(len, graph.values()))",
+                "max((len(V_) for V_ in graph.values()))",
+                "max([len(V_) for V_ in graph.values()])",
+                "max((len(graph[V_]) for V_ in graph))",
+                "max([len(graph[V_]) for V_ in graph])",
+                "max((len(V_) for K_, V_ in graph.items()))",
+                "len(max(graph.values(), key=len))",
+            ):
                 if astq.match(n, pat) is not None:
                     return ast.Name(id="DELTA__", ctx=ast.Load())
             for pat in ("len(regions)", "len(graph)", "len(graph.keys())"):
                 if astq.match(n, pat) is not None:
                     return ast.Name(id="NVERT__", ctx=ast.Load())
             return self.generic_visit(n)
-
-    import copy
 
     be = ast.fix_missing_locations(_Sub().visit(copy.deepcopy(b)))
     try:
@@ -100,7 +99,7 @@ def run(chk) -> None:
         chk.expect(
             worst is None,
             "milp-bound",
-            fi.site(b),
+            fi.site(st),
             f"level bound `{why}` >= max degree + 1 (evaluated for max degree 1..12)",
             f"level bound `{why}` can be smaller than max degree + 1" + (f" (max degree {worst[0]} -> {worst[2]} levels)" if worst else "") + ": the model can be infeasible or exclude the optimum",
             K(fi, "bound"),
@@ -108,286 +107,443 @@ def run(chk) -> None:
             found=why,
         )
     except Exception as ex:
-        chk.error("milp-bound", fi.site(b), f"level bound `{why}` not understood: {ex}")
+        chk.error("milp-bound", fi.site(st), f"level bound `{why}` not understood: {ex}")
 
-    # ---- sense --------------------------------------------------------------------------
-    prob = astq.first_assign(fi.node, "problem")
-    m = astq.match(prob, "pulp.LpProblem(N_, S_)") if prob is not None else None
-    sense = norm(m["S_"]) if m else None
-    if m is None and prob is not None:
-        for kw in getattr(prob, "keywords", []):
-            if kw.arg == "sense":
-                sense = norm(kw.value)
-    chk.expect(
-        sense in ("pulp.LpMaximize", "LpMaximize", "-1"),
-        "milp-sense",
-        fi.site(prob) if prob is not None else fi.where,
-        "the problem is a maximisation",
-        f"problem sense is `{sense}`, not LpMaximize",
-        K(fi, "sense"),
-        found=sense,
-    )
 
-    # ---- variables ------------------------------------------------------------------------
-    vcalls = astq.calls(fi.node, "LpVariable")
-    if len(vcalls) != 1:
-        chk.error("milp-variables", fi.where, f"expected one LpVariable creation site, found {len(vcalls)}")
+def loop_roles(loops) -> Optional[Dict[str, str]]:
+    """Two nested iterations: (level, vars) over vars_by_order.items(), then var over vars."""
+    if len(loops) != 2:
+        return None
+    l0, l1 = loops
+    t0, t1 = l0.target, l1.target
+    if astq.match(l0.iter, "vars_by_order.items()") is None or not (isinstance(t0, ast.Tuple) and len(t0.elts) == 2 and all(isinstance(e, ast.Name) for e in t0.elts)):
+        return None
+    if not (isinstance(l1.iter, ast.Name) and l1.iter.id == t0.elts[1].id and isinstance(t1, ast.Name)):
+        return None
+    return {"level": t0.elts[0].id, "var": t1.id}
+
+
+def objective_sources(fi: FuncInfo, fm: FlowMap, name: str) -> Optional[List[Tuple[ast.expr, Dict[str, str], List, ast.AST]]]:
+    """[(term expression, roles, guards, site)] for every way elements get into list `name`; None if one is not understood."""
+    out = []
+    for c in astq.calls(fi.node, "append"):
+        if astq.dotted(c.func.value) != name or not c.args:
+            continue
+        st = fm.stmt_of(c)
+        loops = fm.of(st).loops
+        roles = loop_roles(loops)
+        if roles is None:
+            return None
+        out.append((c.args[0], roles, list(fm.guards_within(st, loops[0])), c))
+    for st, v in astq.assignments(fi.node, name):
+        if v is None:
+            continue
+        if isinstance(v, (ast.ListComp, ast.GeneratorExp)):
+            roles = loop_roles(v.generators)
+            if roles is None:
+                return None
+            out.append((v.elt, roles, [("comp-if", c2) for g in v.generators for c2 in g.ifs], v))
+        elif not (norm(v) in ("[]", "list()")):
+            return None
+    for n in ast.walk(fi.node):
+        if isinstance(n, ast.Call) and isinstance(n.func, ast.Attribute) and n.func.attr in ("extend", "insert", "remove", "pop", "clear") and astq.dotted(n.func.value) == name:
+            return None
+        if isinstance(n, ast.AugAssign) and astq.dotted(n.target) == name:
+            return None
+    return out
+
+
+def check_objective(chk, fi: FuncInfo, fm: FlowMap, inl: Inliner) -> None:
+    repo = chk.repo
+    helpers = local_helpers(repo, fi)
+    adds = [s for s in astq.walk_no_nested(fi.node) if isinstance(s, ast.AugAssign) and isinstance(s.op, ast.Add) and astq.dotted(s.target) == "problem"]
+    obj = [s for s in adds if not isinstance(inl.inline(s.value, s, depth=2), ast.Compare)]
+    cons = [s for s in adds if s not in obj]
+    if len(obj) != 1:
+        chk.error("milp-objective", fi.where, f"{len(obj)} objective statements `problem += <expression>` found, expected one")
+    else:
+        _objective_terms(chk, fi, fm, inl, obj[0], helpers)
+    # ---- constraints ------------------------------------------------------------------------------------------
+    one, adj, other = [], [], []
+    for s in cons:
+        v = inl.inline(s.value, s, stop=("var_by_region_order", "vars_by_region", "graph", "max_order"))
+        loops = fm.of(s).loops
+        if isinstance(v, ast.Compare) and len(v.ops) == 1 and (astq.match(v.left, "pulp.lpSum(X_)") is not None or astq.match(v.comparators[0], "pulp.lpSum(X_)") is not None):
+            one.append((s, v, loops))
+        elif isinstance(v, ast.Compare) and "var_by_region_order" in norm(v):
+            adj.append((s, v, loops))
+        else:
+            other.append((s, v, loops))
+    for s, v, _ in other:
+        chk.error("milp-model-sites", fi.site(s), f"constraint `{norm(v)[:80]}` not classified (neither exactly-one-level nor adjacency)")
+    if not other:
+        chk.expect(len(one) == 1 and len(adj) == 1, "milp-model-sites", fi.where, "the model has one objective and two constraint families, nothing else", f"the model has {len(one)} exactly-one-level and {len(adj)} adjacency constraint site(s), expected one of each", K(fi, "model-sites"), found=[norm(s.value)[:80] for s in cons])
+    if len(one) == 1:
+        s, v, loops = one[0]
+        flip = astq.match(v.left, "pulp.lpSum(X_)") is None
+        m = astq.match(v.comparators[0] if flip else v.left, "pulp.lpSum(X_)")
+        rhs = Folder(repo, MOD).try_fold(v.left if flip else v.comparators[0])
+        x = norm(m["X_"])
+        src_ok = False
+        if len(loops) == 1 and not fm.guards_within(s, loops[0]) and not _skips(loops):
+            l0 = loops[0]
+            if astq.match(l0.iter, "vars_by_region.values()") is not None:
+                src_ok = x == norm(l0.target)
+            elif astq.match(l0.iter, "vars_by_region.items()") is not None and isinstance(l0.target, ast.Tuple) and len(l0.target.elts) == 2:
+                src_ok = x == norm(l0.target.elts[1])
+            elif astq.match(l0.iter, "vars_by_region") is not None or astq.match(l0.iter, "vars_by_region.keys()") is not None or astq.match(l0.iter, "range(len(regions))") is not None:
+                src_ok = x == f"vars_by_region[{norm(l0.target)}]"
+        if not src_ok:
+            chk.error("milp-one-level", fi.site(s), "the exactly-one-level constraint does not range over vars_by_region in a recognised way")
+        else:
+            chk.expect(rhs == 1 and isinstance(v.ops[0], ast.Eq), "milp-one-level", fi.site(s), "every region is on exactly one level: sum over its variables == 1", f"the one-level constraint is `{norm(v)}`, not `sum == 1`", K(fi, "one-level"), found=norm(v))
+    elif not one and not other:
+        chk.violation("milp-one-level", fi.where, "the exactly-one-level constraint (lpSum(vars of a region) == 1 for every region) is missing or no longer an equality", K(fi, "one-level"), found=[norm(s.value) for s in cons])
+    if len(adj) == 1:
+        s, v, loops = adj[0]
+        m = astq.match(v, "var_by_region_order[A_, L_] + var_by_region_order[B_, L_] <= C_")
+        if not m:
+            m2 = isinstance(v, ast.Compare) and len(v.ops) == 1 and astq.match(v.left, "var_by_region_order[A_, L_] + var_by_region_order[B_, L_]")
+            if m2:
+                chk.violation("milp-adjacency", fi.site(s), f"adjacency constraint `{norm(v)}` is not `x[i,k] + x[j,k] <= 1`", K(fi, "adjacency"), found=norm(v))
+            else:
+                chk.error("milp-adjacency", fi.site(s), f"adjacency constraint `{norm(v)[:90]}` not of the form x[i,k] + x[j,k] <= 1")
+        else:
+            a, b2, l = norm(m["A_"]), norm(m["B_"]), norm(m["L_"])
+            rhs = Folder(repo, MOD).try_fold(m["C_"])
+            idx_ok = False
+            lvl_iter = None
+            if len(loops) == 3 and not fm.guards_within(s, loops[0]):
+                l0, l1, l2 = loops
+                k0 = (astq.match(l0.iter, "graph.keys()") is not None or astq.match(l0.iter, "graph") is not None) and norm(l0.target) == a and astq.match(l1.iter, f"graph[{a}]") is not None and norm(l1.target) == b2
+                k1 = astq.match(l0.iter, "graph.items()") is not None and isinstance(l0.target, ast.Tuple) and len(l0.target.elts) == 2 and norm(l0.target.elts[0]) == a and norm(l1.iter) == norm(l0.target.elts[1]) and norm(l1.target) == b2
+                idx_ok = (k0 or k1) and norm(l2.target) == l
+                lvl_iter = l2.iter
+            if len(loops) == 3 and fm.guards_within(s, loops[0]):
+                gs = fm.guards_within(s, loops[0])
+                # a filter on the (vertex, neighbour) pair that keeps one direction of every edge is equivalent
+                if all(norm(g.test) in (f"{a} < {b2}", f"{b2} > {a}", f"{a} > {b2}", f"{b2} < {a}") for g in gs) and len(gs) == 1:
+                    chk.ok("milp-adjacency", fi.site(s), "each undirected edge constrained once (i<j filter)")
+                else:
+                    chk.violation("milp-adjacency", fi.site(s), f"adjacency constraints are added only under `{' and '.join(norm(g.test) for g in gs)}`: some (edge, level) pairs are unconstrained", K(fi, "adjacency-guard"), found=[norm(g.test) for g in gs])
+                    idx_ok = None
+            if idx_ok is False:
+                chk.error("milp-adjacency", fi.site(s), "adjacency constraints do not range over (vertex, neighbour, level) in a recognised way")
+            elif idx_ok:
+                if _skips(loops):
+                    chk.violation("milp-adjacency", fi.site(s), "break/continue inside the adjacency loops: some (edge, level) constraints are missing", K(fi, "adjacency-skip"))
+                chk.expect(
+                    rhs == 1 and astq.match(inl.inline(lvl_iter, s, stop=("max_order",)), "range(max_order)") is not None,
+                    "milp-adjacency",
+                    fi.site(s),
+                    "for every edge (i,j) and every level k in range(max_order): x[i,k] + x[j,k] <= 1",
+                    f"the adjacency family is `{norm(v)}` for levels `{norm(lvl_iter)}`: not `<= 1` for every level in range(max_order)",
+                    K(fi, "adjacency"),
+                    found=[norm(v), norm(lvl_iter)],
+                )
+    elif not adj and not other:
+        chk.violation("milp-adjacency", fi.where, "the adjacency constraint family (x[i,k] + x[j,k] <= 1 for every edge and level) is missing", K(fi, "adjacency"))
+
+
+def _skips(loops) -> bool:
+    return any(isinstance(n, (ast.Break, ast.Continue)) for lp in loops if isinstance(lp, (ast.For, ast.While)) for st in lp.body for n in ast.walk(st))
+
+
+def _objective_terms(chk, fi: FuncInfo, fm: FlowMap, inl: Inliner, obj: ast.AugAssign, helpers: Dict[str, Callable]) -> None:
+    repo = chk.repo
+    m = astq.match(obj.value, "pulp.lpSum(T_)")
+    if not m:
+        chk.error("milp-objective", fi.site(obj), f"objective `{norm(obj.value)}` is not pulp.lpSum(<terms>)")
         return
-    vc = vcalls[0]
-    vst = fm.stmt_of(vc)
-    loops = fm.of(vst).loops
-    idx_ok = False
-    i_name = j_name = None
-    if len(loops) == 2 and all(isinstance(l, ast.For) and isinstance(l.target, ast.Name) for l in loops):
+    t = m["T_"]
+    srcs = None
+    if isinstance(t, ast.Name):
+        srcs = objective_sources(fi, fm, t.id)
+    elif isinstance(t, (ast.ListComp, ast.GeneratorExp)):
+        roles = loop_roles(t.generators)
+        srcs = [(t.elt, roles, [("comp-if", c2) for g in t.generators for c2 in g.ifs], t)] if roles else None
+    if srcs is not None and not srcs:
+        chk.violation("milp-objective-coeff", fi.site(obj), "no objective terms are collected: every assignment has objective 0", K(fi, "objective-terms"))
+        return
+    if not srcs or any(s[1] != srcs[0][1] for s in srcs):
+        chk.error("milp-objective", fi.site(obj), "objective terms are not collected over (level, variable) of vars_by_order in a recognised way")
+        return
+    lvl, var = srcs[0][1]["level"], srcs[0][1]["var"]
+    for s in srcs:
+        if isinstance(s[3], ast.Call) and _skips(fm.of(fm.stmt_of(s[3])).loops):
+            chk.violation("milp-objective-coeff", fi.site(s[3]), "break/continue in the objective loops: some (level, variable) terms are missing", K(fi, "objective-skip"))
+
+    def coeff(k: int, v: float, ln: float) -> Tuple[float, int]:
+        total, n = 0.0, 0
+        loc: Dict[str, Any] = {lvl: k, var: v, "region_by_var": {v: (-7, -11, ln)}}
+        loc.update(helpers)
+        for expr, _, guards, site in srcs:
+            taken = True
+            for g in guards:
+                test, pol = (g[1], True) if isinstance(g, tuple) else (g.test, g.polarity)
+                val = Folder(repo, MOD, loc).try_fold(test, None)
+                if val is None:
+                    raise AnalysisError(f"guard `{norm(test)}` of an objective term does not fold on concrete levels")
+                taken = taken and (bool(val) == pol)
+            if taken:
+                at = fm.stmt_of(site)
+                e = inl.inline(expr, at, stop=(lvl, var, "region_by_var", "regions") + tuple(helpers))
+                total += Folder(repo, MOD, loc).fold(e)
+                n += 1
+        return total, n
+
+    rows = {}
+    ok_all = True
+    try:
+        for k in range(0, 6):
+            c11, n = coeff(k, 1.0, 1.0)
+            c13, _ = coeff(k, 1.0, 3.0)
+            c21, _ = coeff(k, 2.0, 1.0)
+            want = 1.0 if k == 0 else -float(k)
+            rows[k] = c11
+            ok_all = ok_all and n == 1 and abs(c11 - want) < 1e-9 and abs(c13 - 3 * want) < 1e-9 and abs(c21 - 2 * want) < 1e-9
+        chk.expect(
+            ok_all,
+            "milp-objective-coeff",
+            fi.site(obj),
+            "coefficient of x[i,k] is +len_i for k = 0 and -k*len_i for k >= 1 (levels 0..5, bilinear in x and len; len = third component of the variable's region)",
+            "the objective coefficient of x[i,k] is not +len on level 0 and -k*len on level k (len = length of the variable's region)",
+            K(fi, "objective-coeff"),
+            expected={k: (1 if k == 0 else -k) for k in range(6)},
+            found=rows,
+        )
+    except Exception as ex:
+        chk.error("milp-objective-coeff", fi.site(obj), f"objective term not evaluable: {ex}")
+
+
+def check_variables(chk, fi: FuncInfo, fm: FlowMap) -> bool:
+    """Category of every LP variable creation; index coverage; name format; bookkeeping.  Returns whether the name format is x_<region>_<level>."""
+    repo = chk.repo
+    f = Folder(repo, MOD)
+    creators = [c for c in ast.walk(fi.node) if isinstance(c, ast.Call) and (astq.dotted(c.func) or "").split(".")[-1] in ("LpVariable", "dicts", "dict", "matrix") and "LpVariable" in (astq.dotted(c.func) or "")]
+    if not creators:
+        chk.error("milp-variables", fi.where, "no LP variable creation found")
+        return False
+    fmt = False
+    for vc in creators:
+        d = astq.dotted(vc.func)
+        args = list(vc.args)
+        kw = {k.arg: k.value for k in vc.keywords}
+        off = 0 if d.endswith("LpVariable") else 1  # .dicts(name, indices, lowBound, upBound, cat)
+        lo = args[1 + off] if len(args) > 1 + off else kw.get("lowBound")
+        hi = args[2 + off] if len(args) > 2 + off else kw.get("upBound")
+        cat = args[3 + off] if len(args) > 3 + off else kw.get("cat")
+        cat_s = norm(cat) if cat is not None else None
+        is_bin = cat_s in ("pulp.LpBinary", "LpBinary", "'Binary'")
+        is_int01 = cat_s in ("pulp.LpInteger", "LpInteger", "'Integer'") and lo is not None and hi is not None and f.try_fold(lo) == 0 and f.try_fold(hi) == 1
+        chk.expect(
+            is_bin or is_int01,
+            "milp-binary",
+            fi.site(vc),
+            "decision variables are integer in [0,1]",
+            f"decision variables are not binary (cat={cat_s if cat_s else 'default Continuous'}, bounds {norm(lo) if lo is not None else None}..{norm(hi) if hi is not None else None}): fractional assignments become feasible and the `== 1` read-back can select nothing",
+            K(fi, "var-category"),
+            found=norm(vc)[:120],
+        )
+        if not d.endswith("LpVariable"):
+            chk.error("milp-variables", fi.site(vc), f"variables created through `{d}`: index/bookkeeping reading not implemented for this form")
+            continue
+        vst = fm.stmt_of(vc)
+        loops = fm.of(vst).loops
+        if not (len(loops) == 2 and all(isinstance(l, ast.For) and isinstance(l.target, ast.Name) for l in loops)):
+            chk.error("milp-variables", fi.site(vc), "variable creation is not inside a (region, level) double loop")
+            continue
         i_name, j_name = loops[0].target.id, loops[1].target.id
         idx_ok = astq.match(loops[0].iter, "range(len(regions))") is not None and astq.match(loops[1].iter, "range(max_order)") is not None
-        skip = [n for l in loops for s in l.body for n in ast.walk(s) if isinstance(n, (ast.Break, ast.Continue))]
-        idx_ok = idx_ok and not skip
-        idx_ok = idx_ok and not fm.guards_within(vst, loops[0])
-    chk.expect(
-        idx_ok,
-        "milp-variables",
-        fi.site(vc),
-        "one variable per (region, level) over range(len(regions)) x range(max_order)",
-        "variables are not created for the full product regions x levels",
-        K(fi, "var-index"),
-        found=[norm(l.iter) for l in loops],
-    )
-    args = list(vc.args)
-    kw = {k.arg: k.value for k in vc.keywords}
-    name_e = args[0] if args else kw.get("name")
-    lo = args[1] if len(args) > 1 else kw.get("lowBound")
-    hi = args[2] if len(args) > 2 else kw.get("upBound")
-    cat = args[3] if len(args) > 3 else kw.get("cat")
-    cat_s = norm(cat) if cat is not None else None
-    f = Folder(repo, MOD)
-    is_bin = cat_s in ("pulp.LpBinary", "LpBinary", "'Binary'")
-    is_int01 = cat_s in ("pulp.LpInteger", "LpInteger", "'Integer'") and lo is not None and hi is not None and f.try_fold(lo) == 0 and f.try_fold(hi) == 1
-    chk.expect(
-        is_bin or is_int01,
-        "milp-binary",
-        fi.site(vc),
-        "decision variables are integer in [0,1]",
-        f"decision variables are not binary (cat={cat_s}, bounds {norm(lo) if lo else None}..{norm(hi) if hi else None}): fractional assignments become feasible",
-        K(fi, "var-category"),
-        found=norm(vc),
-    )
-    # bookkeeping containers
-    var_name = None
-    if isinstance(vst, ast.Assign) and isinstance(vst.targets[0], ast.Name):
-        var_name = vst.targets[0].id
-    books = {}
-    for s in loops[1].body if len(loops) == 2 else []:
-        m1 = astq.match(s, f"D_[K_].append({var_name})")
-        m2 = astq.match(s, f"D_[K_] = {var_name}")
-        m3 = astq.match(s, f"D_[{var_name}] = V_")
-        if m1:
-            books[norm(m1["D_"])] = ("list-by", norm(m1["K_"]))
-        elif m2:
-            books[norm(m2["D_"])] = ("by-key", norm(m2["K_"]))
-        elif m3:
-            books[norm(m3["D_"])] = ("of-var", norm(m3["V_"]))
-    want_books = {
-        "vars_by_region": ("list-by", i_name),
-        "vars_by_order": ("list-by", j_name),
-        "var_by_region_order": ("by-key", f"({i_name}, {j_name})"),
-        "region_by_var": ("of-var", f"regions[{i_name}]"),
-    }
-    chk.expect(
-        all(books.get(k) == v for k, v in want_books.items()),
-        "milp-bookkeeping",
-        fi.site(loops[1]) if len(loops) == 2 else fi.where,
-        "each variable is filed under its region, its level, its (region, level) key and mapped to its region",
-        "the variable bookkeeping (by region / by level / by (region, level) / region of variable) is inconsistent with the creation indices",
-        K(fi, "bookkeeping"),
-        expected={k: list(v) for k, v in want_books.items()},
-        found={k: list(v) for k, v in books.items()},
-    )
-    # name format x_{i}_{j}
-    fmt_ok = False
-    if isinstance(name_e, ast.JoinedStr):
-        parts = []
-        for v in name_e.values:
-            parts.append(("lit", v.value) if isinstance(v, ast.Constant) else ("fld", norm(v.value)))
-        fmt_ok = parts == [("lit", "x_"), ("fld", i_name), ("lit", "_"), ("fld", j_name)]
-    chk.expect(fmt_ok, "milp-name-format", fi.site(vc), "variable name is x_<region>_<level>", "variable name format is not x_<region>_<level>", K(fi, "name-format"), found=norm(name_e) if name_e is not None else None)
-
-    # ---- problem += sites -----------------------------------------------------------------------
-    adds = [s for s in astq.walk_no_nested(fi.node) if isinstance(s, ast.AugAssign) and isinstance(s.op, ast.Add) and astq.dotted(s.target) == "problem"]
-    obj = [s for s in adds if not any(isinstance(n, ast.Compare) for n in ast.walk(s.value))]
-    cons = [s for s in adds if s not in obj]
-    chk.expect(
-        len(obj) == 1 and len(cons) == 2,
-        "milp-model-sites",
-        fi.where,
-        "the model has one objective and two constraint families, nothing else",
-        f"the model has {len(obj)} objective(s) and {len(cons)} constraint site(s); expected 1 and 2 (exactly-one-level, adjacency)",
-        K(fi, "model-sites"),
-        found=[norm(s)[:80] for s in adds],
-    )
-    # ---- objective ------------------------------------------------------------------------------------
-    if obj:
-        chk.expect(astq.match(obj[0].value, "pulp.lpSum(terms)") is not None, "milp-objective", fi.site(obj[0]), "objective = lpSum(terms)", f"objective is `{norm(obj[0].value)}`, not lpSum(terms)", K(fi, "objective-sum"))
-    t_appends = [c for c in astq.calls(fi.node, "append") if astq.dotted(c.func.value) == "terms"]
-    if not t_appends:
-        chk.violation("milp-objective", fi.where, "no objective terms are collected", K(fi, "objective-terms"))
-    else:
-        tst = fm.stmt_of(t_appends[0])
-        tloops = fm.of(tst).loops
-        loops_ok = False
-        lvl = var = None
-        if len(tloops) == 2:
-            o_it = astq.match(tloops[0].iter, "vars_by_order.items()") is not None and isinstance(tloops[0].target, ast.Tuple)
-            if o_it:
-                lvl, vs = tloops[0].target.elts[0].id, tloops[0].target.elts[1].id
-                loops_ok = astq.match(tloops[1].iter, vs) is not None and isinstance(tloops[1].target, ast.Name)
-                var = tloops[1].target.id if loops_ok else None
-        skip = [n for l in tloops for s in l.body for n in ast.walk(s) if isinstance(n, (ast.Break, ast.Continue))]
+        idx_ok = idx_ok and not _skips(loops) and not fm.guards_within(vst, loops[0])
+        chk.expect(idx_ok, "milp-variables", fi.site(vc), "one variable per (region, level) over range(len(regions)) x range(max_order)", "variables are not created for the full product regions x levels", K(fi, "var-index"), found=[norm(l.iter) for l in loops])
+        name_e = args[0] if args else kw.get("name")
+        if isinstance(name_e, ast.JoinedStr):
+            parts = [("lit", v.value) if isinstance(v, ast.Constant) else ("fld", norm(v.value)) for v in name_e.values]
+            fmt = parts == [("lit", "x_"), ("fld", i_name), ("lit", "_"), ("fld", j_name)]
+            swapped = parts == [("lit", "x_"), ("fld", j_name), ("lit", "_"), ("fld", i_name)]
+            if fmt:
+                chk.ok("milp-name-format", fi.site(vc), "variable name is x_<region>_<level>")
+            elif swapped:
+                chk.violation("milp-name-format", fi.site(vc), f"variable name `{norm(name_e)}` puts the level before the region: the read-back assigns levels to the wrong regions", K(fi, "name-format"), found=norm(name_e))
+            else:
+                flds = [p[1] for p in parts if p[0] == "fld"]
+                if sorted(flds) != sorted([i_name, j_name]) and set(flds) <= {i_name, j_name}:
+                    chk.violation("milp-name-format", fi.site(vc), f"variable name `{norm(name_e)}` does not contain both the region and the level: names collide and the read-back cannot recover the assignment", K(fi, "name-format"), found=norm(name_e))
+                else:
+                    chk.error("milp-name-format", fi.site(vc), f"variable name format `{norm(name_e)}` not recognised")
+        else:
+            chk.error("milp-name-format", fi.site(vc), "variable name is not an f-string")
+        var_name = vst.targets[0].id if isinstance(vst, ast.Assign) and isinstance(vst.targets[0], ast.Name) else None
+        books = {}
+        for s in loops[1].body:
+            m1 = astq.match(s, f"D_[K_].append({var_name})")
+            m2 = astq.match(s, f"D_[K_] = {var_name}")
+            m3 = astq.match(s, f"D_[{var_name}] = V_")
+            if m1:
+                books[norm(m1["D_"])] = ("list-by", norm(m1["K_"]))
+            elif m2:
+                books[norm(m2["D_"])] = ("by-key", norm(m2["K_"]))
+            elif m3:
+                books[norm(m3["D_"])] = ("of-var", norm(m3["V_"]))
+        want_books = {"vars_by_region": ("list-by", i_name), "vars_by_order": ("list-by", j_name), "var_by_region_order": ("by-key", f"({i_name}, {j_name})"), "region_by_var": ("of-var", f"regions[{i_name}]")}
         chk.expect(
-            loops_ok and not skip,
-            "milp-objective",
-            fi.site(tloops[0]) if tloops else fi.where,
-            "objective terms range over every level and every variable of the level",
-            "objective terms do not range over all (level, variable) combinations of vars_by_order",
-            K(fi, "objective-index"),
+            all(books.get(k) == v for k, v in want_books.items()),
+            "milp-bookkeeping",
+            fi.site(loops[1]),
+            "each variable is filed under its region, its level, its (region, level) key and mapped to its region",
+            "the variable bookkeeping (by region / by level / by (region, level) / region of variable) is inconsistent with the creation indices",
+            K(fi, "bookkeeping"),
+            expected={k: list(v) for k, v in want_books.items()},
+            found={k: list(v) for k, v in books.items()},
         )
-        if loops_ok:
-            length_def = [v for s, v in astq.assignments(tloops[1], "length") if v is not None]
-            len_ok = bool(length_def) and astq.match(length_def[0], f"region_by_var[{var}][2]") is not None
-            chk.expect(len_ok, "milp-objective-length", fi.site(tloops[1]), "the weight of a variable is the length (third component) of its region", "the objective weight is not region_by_var[var][2] (the stem length)", K(fi, "objective-length"), found=[norm(x) for x in length_def])
-            # coefficient of x[i,k] as a function of the level k: evaluate the collected term(s) on a small grid
-            def coeff(k, v, ln):
-                total, n = 0.0, 0
-                for c in t_appends:
-                    st = fm.stmt_of(c)
-                    gs = fm.guards_within(st, tloops[1])
-                    taken = True
-                    for g in gs:
-                        val = Folder(repo, MOD, {lvl: k}).try_fold(g.test, None)
-                        if val is None:
-                            raise AnalysisError(f"level test `{norm(g.test)}` does not fold on concrete levels")
-                        taken = taken and (bool(val) == g.polarity)
-                    if taken:
-                        total += Folder(repo, MOD, {lvl: k, var: v, "length": ln}).fold(c.args[0])
-                        n += 1
-                return total, n
-            rows = {}
-            ok_all = True
-            try:
-                for k in range(0, 6):
-                    c11, n = coeff(k, 1.0, 1.0)
-                    c13, _ = coeff(k, 1.0, 3.0)
-                    c21, _ = coeff(k, 2.0, 1.0)
-                    want = 1.0 if k == 0 else -float(k)
-                    rows[k] = c11
-                    ok_all = ok_all and n == 1 and abs(c11 - want) < 1e-9 and abs(c13 - 3 * want) < 1e-9 and abs(c21 - 2 * want) < 1e-9
-                chk.expect(
-                    ok_all,
-                    "milp-objective-coeff",
-                    fi.site(tloops[1]),
-                    "coefficient of x[i,k] is +len_i for k = 0 and -k*len_i for k >= 1 (levels 0..5, bilinear in x and len)",
-                    "the objective coefficient of x[i,k] is not +len on level 0 and -k*len on level k",
-                    K(fi, "objective-coeff"),
-                    expected={k: (1 if k == 0 else -k) for k in range(6)},
-                    found=rows,
-                )
-            except Exception as ex:
-                chk.error("milp-objective-coeff", fi.site(tloops[1]), f"objective term not evaluable: {ex}")
-    # ---- constraints -------------------------------------------------------------------------------------
-    one = [s for s in cons if astq.match(s.value, "pulp.lpSum(X_) == 1") is not None]
-    ok1 = False
-    if len(one) == 1:
-        ls = fm.of(one[0]).loops
-        x = astq.match(one[0].value, "pulp.lpSum(X_) == 1")["X_"]
-        ok1 = len(ls) == 1 and astq.match(ls[0].iter, "vars_by_region.values()") is not None and isinstance(ls[0].target, ast.Name) and astq.match(x, ls[0].target.id) is not None and not fm.guards_within(one[0], ls[0])
-    chk.expect(
-        ok1,
-        "milp-one-level",
-        fi.site(one[0]) if one else fi.where,
-        "every region is on exactly one level: sum over its variables == 1",
-        "the exactly-one-level constraint (lpSum(vars of a region) == 1 for every region) is missing or altered",
-        K(fi, "one-level"),
-        found=[norm(s.value) for s in cons],
-    )
-    adj = [s for s in cons if s not in one]
-    ok2 = False
-    if len(adj) == 1:
-        m = astq.match(adj[0].value, "var_by_region_order[A_, L_] + var_by_region_order[B_, L_] <= 1") or astq.match(adj[0].value, "var_by_region_order[(A_, L_)] + var_by_region_order[(B_, L_)] <= 1")
-        ls = fm.of(adj[0]).loops
-        if m and len(ls) == 3 and not fm.guards_within(adj[0], ls[0]):
-            a, b2, l = norm(m["A_"]), norm(m["B_"]), norm(m["L_"])
-            l0 = (astq.match(ls[0].iter, "graph.keys()") is not None or astq.match(ls[0].iter, "graph") is not None) and norm(ls[0].target) == a
-            l1 = astq.match(ls[1].iter, f"graph[{a}]") is not None and norm(ls[1].target) == b2
-            l2 = astq.match(ls[2].iter, "range(max_order)") is not None and norm(ls[2].target) == l
-            skip = [n for lp in ls for s in lp.body for n in ast.walk(s) if isinstance(n, (ast.Break, ast.Continue))]
-            ok2 = l0 and l1 and l2 and not skip
-    chk.expect(
-        ok2,
-        "milp-adjacency",
-        fi.site(adj[0]) if adj else fi.where,
-        "for every edge (i,j) and every level k: x[i,k] + x[j,k] <= 1",
-        "the adjacency constraint family (x[i,k] + x[j,k] <= 1 for every edge and every level in range(max_order)) is missing or altered",
-        K(fi, "adjacency"),
-        found=[norm(s.value) for s in adj] + [norm(l.iter) for l in (fm.of(adj[0]).loops if adj else [])],
-    )
-    # ---- read-back ------------------------------------------------------------------------------------------
+    return fmt
+
+
+def name_field_roles(loop: ast.For, v: str) -> Optional[Dict[str, str]]:
+    """name -> 'REGION' | 'LEVEL' | 'PREFIX' for locals bound from `<v>.getName().split('_')` (name format x_<region>_<level>)."""
+    names_of_name = [f"{v}.getName()", f"{v}.name"]
+    for s in ast.walk(loop):
+        if isinstance(s, ast.Assign) and isinstance(s.targets[0], ast.Name) and norm(s.value) in names_of_name:
+            names_of_name.append(s.targets[0].id)
+    roles: Dict[str, str] = {}
+    for s in ast.walk(loop):
+        if not (isinstance(s, ast.Assign) and isinstance(s.targets[0], (ast.Tuple, ast.List))):
+            continue
+        seq = None
+        for nm in names_of_name:
+            for pat, fields in (
+                (f'map(int, {nm}.split("_")[1:])', ["REGION", "LEVEL"]),
+                (f'[int(X_) for X_ in {nm}.split("_")[1:]]', ["REGION", "LEVEL"]),
+                (f'(int(X_) for X_ in {nm}.split("_")[1:])', ["REGION", "LEVEL"]),
+                (f'{nm}.split("_")[1:]', ["REGION", "LEVEL"]),
+                (f'{nm}.split("_")', ["PREFIX", "REGION", "LEVEL"]),
+                (f'map(int, {nm}.split("_")[1:3])', ["REGION", "LEVEL"]),
+                (f'{nm}.split("_")[1:3]', ["REGION", "LEVEL"]),
+            ):
+                if astq.match(s.value, pat) is not None:
+                    seq = fields
+        if seq is None or len(seq) != len(s.targets[0].elts):
+            continue
+        for t, r in zip(s.targets[0].elts, seq):
+            if isinstance(t, ast.Name):
+                roles[t.id] = r
+    return roles or None
+
+
+def check_readback(chk, fi: FuncInfo, fm: FlowMap, env: SymEnv, R: Any, fmt_ok: bool) -> None:
     rb_loops = [l for l in fi.node.body if isinstance(l, ast.For) and astq.match(l.iter, "problem.variables()") is not None]
-    ok3 = False
-    found = None
-    if len(rb_loops) == 1 and isinstance(rb_loops[0].target, ast.Name):
-        v = rb_loops[0].target.id
-        sel = [s for s in rb_loops[0].body if isinstance(s, ast.If)]
-        if len(sel) == 1 and (astq.match(sel[0].test, f"{v}.varValue == 1") is not None or astq.match(sel[0].test, f"{v}.varValue > 0.5") is not None or astq.match(sel[0].test, f"round({v}.varValue) == 1") is not None):
-            body = sel[0].body
-            found = [norm(s) for s in body]
-            unp = [s for s in body if isinstance(s, ast.Assign) and isinstance(s.targets[0], ast.Tuple) and len(s.targets[0].elts) == 2]
-            st = [s for s in body if astq.match(s, "orders[A_] = B_") is not None]
-            if len(unp) == 1 and len(st) == 1:
-                a_name, b_name = (e.id for e in unp[0].targets[0].elts)
-                mm = astq.match(st[0], "orders[A_] = B_")
-                parse = unp[0].value
-                src_ok = False
-                for pat in ('map(int, N_.split("_")[1:])', '[int(X_) for X_ in N_.split("_")[1:]]', '(int(X_) for X_ in N_.split("_")[1:])'):
-                    pm = astq.match(parse, pat)
-                    if pm:
-                        n_e = pm["N_"]
-                        if isinstance(n_e, ast.Name):
-                            d = [x for s2, x in astq.assignments(rb_loops[0], n_e.id) if x is not None]
-                            n_e = d[0] if len(d) == 1 else n_e
-                        src_ok = astq.match(n_e, f"{v}.getName()") is not None or astq.match(n_e, f"{v}.name") is not None
-                ok3 = src_ok and norm(mm["A_"]) == a_name and norm(mm["B_"]) == b_name and fmt_ok
-    o_init = [v2 for s, v2 in astq.assignments(fi.node, "orders") if v2 is not None]
-    init_ok = bool(o_init) and ((isinstance(o_init[0], ast.ListComp) and isinstance(o_init[0].elt, ast.Constant) and o_init[0].elt.value == 0 and atom_of(env.ev(o_init[0].generators[0].iter)) == ("call", "range", ("len", R))) or astq.match(o_init[0], "[0] * len(regions)") is not None)
-    chk.expect(
-        ok3 and init_ok,
-        "milp-readback",
-        fi.site(rb_loops[0]) if rb_loops else fi.where,
-        "every selected variable x_<i>_<k> sets orders[i] = k (name parsed in the order it was formatted)",
-        "read-back does not map a selected variable x_<region>_<level> to orders[region] = level",
-        K(fi, "readback"),
-        found=found,
+    if len(rb_loops) != 1 or not isinstance(rb_loops[0].target, ast.Name):
+        chk.error("milp-readback", fi.where, "read-back loop over problem.variables() not found")
+        return
+    loop = rb_loops[0]
+    v = loop.target.id
+    stores = [s for s in ast.walk(loop) if isinstance(s, ast.Assign) and astq.match(s, "orders[A_] = B_") is not None]
+    if len(stores) != 1:
+        chk.error("milp-readback", fi.site(loop), f"{len(stores)} stores into `orders` in the read-back loop, expected one")
+        return
+    st = stores[0]
+    fs = facts(fm.guards_within(st, loop))
+    pos = (f"{v}.varValue == 1", f"round({v}.varValue) == 1", f"{v}.varValue > 0.5", f"{v}.varValue >= 0.5", f"1 == {v}.varValue")
+    neg = (f"{v}.varValue != 1", f"{v}.varValue < 0.5", f"round({v}.varValue) != 1")
+    sel = [g for g in fs if "varValue" in norm(g.test)]
+    extra = [g for g in fs if g not in sel]
+    if not sel and not extra:
+        chk.violation("milp-readback", fi.site(st), "levels are read from every variable regardless of its value (no `varValue == 1` selection): the last level wins", K(fi, "readback-select"))
+    elif len(sel) == 1 and not extra and ((norm(sel[0].test) in pos and sel[0].polarity) or (norm(sel[0].test) in neg and not sel[0].polarity)):
+        chk.ok("milp-readback", fi.site(st), "only variables with value 1 are read")
+    elif len(sel) == 1 and not extra and ((norm(sel[0].test) in pos and not sel[0].polarity) or (norm(sel[0].test) in neg and sel[0].polarity)):
+        chk.violation("milp-readback", fi.site(st), f"levels are read from the variables that are NOT selected (`{norm(sel[0].test)}` is {sel[0].polarity})", K(fi, "readback-select"))
+    else:
+        chk.error("milp-readback", fi.site(st), f"selection of the read-back `{[norm(g.test) for g in fs]}` not recognised")
+    roles = name_field_roles(loop, v)
+    if roles is None:
+        chk.error("milp-readback", fi.site(loop), "parsing of the variable name in the read-back not recognised")
+    else:
+        m = astq.match(st, "orders[A_] = B_")
+
+        def role(e: ast.AST) -> Optional[str]:
+            if isinstance(e, ast.Call) and astq.callee_name(e) == "int" and len(e.args) == 1:
+                e = e.args[0]
+            return roles.get(norm(e))
+
+        ra, rb = role(m["A_"]), role(m["B_"])
+        if ra is None or rb is None or "PREFIX" in (ra, rb) or ra == rb:
+            chk.error("milp-readback", fi.site(st), f"`{norm(st)}` does not use the parsed name fields in a recognised way")
+        elif not fmt_ok:
+            chk.error("milp-readback", fi.site(st), "read-back roles cannot be judged: the name format was not established")
+        else:
+            chk.expect(
+                (ra, rb) == ("REGION", "LEVEL"),
+                "milp-readback",
+                fi.site(st),
+                "a selected variable x_<i>_<k> sets orders[i] = k (fields parsed in the order they were formatted)",
+                f"read-back stores orders[{ra.lower()}] = {rb.lower()}: region and level fields of the variable name are swapped",
+                K(fi, "readback"),
+                found=norm(st),
+            )
+    o_init = [(s, v2) for s, v2 in astq.assignments(fi.node, "orders") if v2 is not None]
+    if len(o_init) != 1:
+        chk.error("milp-readback-init", fi.where, "`orders` is not initialised exactly once")
+    else:
+        chk.expect(zeros_of_regions(env, o_init[0][1], R), "milp-readback-init", fi.site(o_init[0][0]), "orders starts as one 0 per region", f"orders is initialised as `{norm(o_init[0][1])}`, not len(regions) zeros", K(fi, "orders-init"), found=norm(o_init[0][1]))
+
+
+def run(chk) -> None:
+    chk.explanation = (
+        "Symbolic reading of the PuLP model in convert_to_dot_bracket: conflict graph (truth table of the crossing test over all orderings, all pairs, both directions), level bound evaluated as a "
+        "function of the maximum degree (1..12), category/bounds of every variable creation, sense, the objective coefficient of x[i,k] evaluated for levels 0..5 from whatever term sites there are "
+        "(append loops or comprehensions, local helpers evaluated), the two constraint families after inlining temporaries, the roles of the name fields in the read-back, its Optimal guard; fill, regions and stems as in C01."
     )
+    chk.trusted = ["CPython ast", "PuLP semantics of LpProblem/LpVariable/lpSum/+=", "the MILP solver returns a true optimum when status is Optimal", "Grundy argument: an optimal assignment never needs more than max degree + 1 levels"]
+    chk.assumptions = ["valid BPSEQ", "solver integrality: varValue of a selected binary is exactly 1"]
+    chk.robust |= ROBUST | c01.ROBUST
+    repo = chk.repo
+    fi = repo.func(MOD, "BpSeq.convert_to_dot_bracket")
+    chk.note_function(fi)
+    env, R = c01.regions_term(chk, fi)
+    fm = FlowMap(fi.node)
+    inl = Inliner(fi.node)
+    c01.check_conflict_graph(chk, fi)
+
+    # ---- early exit for an empty graph --------------------------------------------------
+    exits = [s for s in fi.node.body if isinstance(s, ast.If) and norm(s.test) in ("not graph", "len(graph) == 0", "not len(graph)", "graph == {}", "0 == len(graph)")]
+    if not exits:
+        chk.error("milp-empty-graph", fi.where, "early exit for an empty conflict graph not found")
+    else:
+        r = exits[0].body[-1]
+        m = astq.match(r.value, "self.__make_dot_bracket(regions, X_)") if isinstance(r, ast.Return) and r.value is not None else None
+        if not m:
+            chk.error("milp-empty-graph", fi.site(exits[0]), "empty-graph exit does not return a notation built by the fill")
+        else:
+            x = inl.inline(m["X_"], r, stop=("regions",))
+            chk.expect(zeros_of_regions(env, x, R), "milp-empty-graph", fi.site(r), "without crossings every region gets level 0", f"empty-graph exit assigns `{norm(x)}`, not level 0 to every region", K(fi, "empty-exit"), found=norm(x))
+    check_bound(chk, fi, inl)
+    # ---- sense --------------------------------------------------------------------------
+    prob = astq.first_assign(fi.node, "problem")
+    if isinstance(prob, ast.Call) and (astq.dotted(prob.func) or "").endswith("LpProblem"):
+        sense = norm(prob.args[1]) if len(prob.args) > 1 else None
+        for kw in prob.keywords:
+            if kw.arg == "sense":
+                sense = norm(kw.value)
+        chk.expect(sense in ("pulp.LpMaximize", "LpMaximize", "-1"), "milp-sense", fi.site(prob), "the problem is a maximisation", f"problem sense is `{sense if sense else 'default (minimise)'}`, not LpMaximize", K(fi, "sense"), found=sense)
+    else:
+        chk.error("milp-sense", fi.where, "`problem = pulp.LpProblem(...)` not found")
+    fmt_ok = check_variables(chk, fi, fm)
+    check_objective(chk, fi, fm, inl)
+    check_readback(chk, fi, fm, env, R, fmt_ok)
     rets = [r for r in fi.node.body if isinstance(r, ast.Return)]
-    chk.expect(
-        len(rets) == 1 and astq.match(rets[0].value, "self.__make_dot_bracket(regions, orders)") is not None,
-        "milp-result",
-        fi.where,
-        "the result is the fill of (regions, orders)",
-        "the optimal path does not return self.__make_dot_bracket(regions, orders)",
-        K(fi, "result"),
-    )
-    # read-back guarded by optimal (shared with C13)
+    chk.expect(len(rets) == 1 and astq.match(rets[0].value, "self.__make_dot_bracket(regions, orders)") is not None, "milp-result", fi.where, "the result is the fill of (regions, orders)", "the optimal path does not return self.__make_dot_bracket(regions, orders)", K(fi, "result"))
     from checks import c13
 
     for rb in [n for n in ast.walk(fi.node) if isinstance(n, ast.Attribute) and n.attr == "varValue"]:
         st = fm.stmt_of(rb)
         fs = facts(fm.expr_guards(st, rb) or fm.of(st).guards)
         chk.expect(any(c13.is_optimal_fact(g) for g in fs), "milp-readback-optimal", fi.site(rb), "values are read only from an optimal solution", "variable values are read without the Optimal status test", K(fi, "readback-unguarded"))
-    # fill + regions + stems
     c01.check_stems(chk)
     c01.check_regions(chk)
     c01.check_fill(chk)
-    for rule, n in (("conflict-predicate", 1), ("milp-objective-coeff", 1), ("milp-objective-length", 1), ("milp-adjacency", 1), ("milp-one-level", 1), ("milp-bound", 1)):
+    for rule, n in (("conflict-predicate", 1), ("milp-objective-coeff", 1), ("milp-adjacency", 1), ("milp-one-level", 1), ("milp-bound", 1), ("milp-binary", 1), ("milp-readback", 2)):
         chk.floor(rule, n)
 
 
@@ -397,5 +553,5 @@ MANIFEST_ENTRY = {
     "-k*len above, exactly one level per region, adjacent regions never share a level, read-back under the Optimal test through the verified fill). "
     "Properness, 'never worse than FCFS', 'no stem movable lower' and 'nested => round brackets only' are corollaries of optimality of this model.",
     "note": "Trusted: the MILP solver returns a true optimum when it reports Optimal; PuLP API semantics; paper argument that Delta+1 levels suffice. Not decided: solver behaviour, floating-point integrality of varValue.",
-    "technique": "static analysis: symbolic MILP model extraction (index sets, signed factor multisets, constraint families) from the ast + order-type truth table of the conflict test",
+    "technique": "static analysis: symbolic MILP model extraction (index sets, evaluated coefficients and bounds, constraint families, name-field roles) from the ast + order-type truth table of the conflict test",
 }
